@@ -1,10 +1,12 @@
 open Ascii
 open Ast
+open BinNat
 open BinNums
 open Bool
 open Datatypes
 open Json
 open List
+open OutViews
 open State
 open Str
 open String
@@ -248,6 +250,89 @@ type case_result = { cr_relevant : bool; cr_roundtrip : bool;
                      cr_same_diag : bool; cr_model_out : jv;
                      cr_model_diags : str list; cr_extra : (str * str) list }
 
+(** val b2s : bool -> str **)
+
+let b2s = function
+| true -> (Npos (Coq_xI (Coq_xO (Coq_xO (Coq_xO (Coq_xI Coq_xH)))))) :: []
+| false -> (Npos (Coq_xO (Coq_xO (Coq_xO (Coq_xO (Coq_xI Coq_xH)))))) :: []
+
+(** val extras : jv -> jv -> (str * str) list **)
+
+let extras c model_out =
+  let real =
+    dec
+      (jfield_d (String ((Ascii (true, true, true, true, false, true, true,
+        false)), (String ((Ascii (true, false, true, false, true, true, true,
+        false)), (String ((Ascii (false, false, true, false, true, true,
+        true, false)), (String ((Ascii (false, false, false, false, true,
+        true, true, false)), (String ((Ascii (true, false, true, false, true,
+        true, true, false)), (String ((Ascii (false, false, true, false,
+        true, true, true, false)), EmptyString)))))))))))) c)
+  in
+  let model = dec model_out in
+  ((s_ (String ((Ascii (true, true, true, true, false, true, true, false)),
+     (String ((Ascii (true, true, false, false, false, false, true, false)),
+     (String ((Ascii (true, false, false, false, true, true, false, false)),
+     (String ((Ascii (true, true, false, false, true, true, false, false)),
+     EmptyString))))))))),
+  (match oracle_C13_codes real with
+   | [] -> (Npos (Coq_xI (Coq_xO (Coq_xO (Coq_xO (Coq_xI Coq_xH)))))) :: []
+   | n :: l ->
+     let cs = n :: l in
+     if forallb (N.eqb (Npos (Coq_xI (Coq_xI (Coq_xO Coq_xH))))) cs
+     then s_ (String ((Ascii (true, true, false, true, false, true, true,
+            false)), (String ((Ascii (false, true, true, true, false, true,
+            true, false)), (String ((Ascii (true, true, true, true, false,
+            true, true, false)), (String ((Ascii (true, true, true, false,
+            true, true, true, false)), (String ((Ascii (false, true, true,
+            true, false, true, true, false)), (String ((Ascii (false, true,
+            false, true, true, true, false, false)), (String ((Ascii (true,
+            true, false, false, false, true, true, false)), (String ((Ascii
+            (false, false, true, true, false, true, true, false)), (String
+            ((Ascii (true, false, false, false, false, true, true, false)),
+            (String ((Ascii (true, true, false, false, true, true, true,
+            false)), (String ((Ascii (true, true, false, false, true, true,
+            true, false)), (String ((Ascii (true, true, true, true, true,
+            false, true, false)), (String ((Ascii (true, true, true, true,
+            false, true, true, false)), (String ((Ascii (false, true, true,
+            true, false, true, true, false)), (String ((Ascii (true, true,
+            true, true, true, false, true, false)), (String ((Ascii (false,
+            true, false, false, false, true, true, false)), (String ((Ascii
+            (true, false, true, false, true, true, true, false)), (String
+            ((Ascii (true, false, false, true, false, true, true, false)),
+            (String ((Ascii (false, false, true, true, false, true, true,
+            false)), (String ((Ascii (false, false, true, false, true, true,
+            true, false)), (String ((Ascii (true, false, false, true, false,
+            true, true, false)), (String ((Ascii (false, true, true, true,
+            false, true, true, false)), (String ((Ascii (true, true, true,
+            true, true, false, true, false)), (String ((Ascii (false, false,
+            false, true, false, true, true, false)), (String ((Ascii (true,
+            true, true, true, false, true, true, false)), (String ((Ascii
+            (true, true, false, false, true, true, true, false)), (String
+            ((Ascii (false, false, true, false, true, true, true, false)),
+            EmptyString))))))))))))))))))))))))))))))))))))))))))))))))))))))
+     else app
+            (s_ (String ((Ascii (false, true, true, false, false, true, true,
+              false)), (String ((Ascii (true, false, false, false, false,
+              true, true, false)), (String ((Ascii (true, false, false, true,
+              false, true, true, false)), (String ((Ascii (false, false,
+              true, true, false, true, true, false)), (String ((Ascii (false,
+              true, false, true, true, true, false, false)),
+              EmptyString)))))))))))
+            (dec_of_N
+              (hd N0
+                (filter (fun c0 ->
+                  negb (N.eqb c0 (Npos (Coq_xI (Coq_xI (Coq_xO Coq_xH))))))
+                  cs))))) :: (((s_ (String ((Ascii (false, true, true, false,
+                                 true, true, true, false)), (String ((Ascii
+                                 (true, true, false, false, false, false,
+                                 true, false)), (String ((Ascii (true, false,
+                                 false, false, true, true, false, false)),
+                                 (String ((Ascii (true, true, false, false,
+                                 true, true, false, false)),
+                                 EmptyString))))))))),
+  (b2s (jv_eqb (view_C13 real) (view_C13 model)))) :: [])
+
 (** val run_case : jv -> case_result **)
 
 let run_case c =
@@ -311,7 +396,8 @@ let run_case c =
                   ((Ascii (true, true, true, false, false, true, true,
                   false)), (String ((Ascii (true, true, false, false, true,
                   true, true, false)), EmptyString)))))))))) c))));
-          cr_model_out = mo; cr_model_diags = s.diags; cr_extra = [] }
+          cr_model_out = mo; cr_model_diags = s.diags; cr_extra =
+          (if real_ok then extras c mo else []) }
      else { cr_relevant = false; cr_roundtrip = true; cr_same_status = true;
             cr_same_out = true; cr_same_diag = true; cr_model_out = JNull;
             cr_model_diags = []; cr_extra = [] }
